@@ -248,7 +248,7 @@ func SolveAll(cfg *SolveCfg, results []*FuncResult) error {
 						ok = false
 					}
 				}
-				if ok {
+				if ok && os.Getenv("VERIF_KEEP") == "" {
 					os.Remove(file)
 				}
 			}
